@@ -331,6 +331,10 @@ def r16_6(ctx):
 
 
 def run(ctx):
+    # join() sleeps on the condition that task_done notifies: the token accounting of notify is C17's (borrowed)
+    from .c17 import r17_3 as _r17_3
+    from ..report import Only as _Only16
+    _r17_3(_Only16(ctx, ('notify:',), floor=3, doc='Condition.notify / notify_all keep the sleeper / token accounting exact'))
     # an item is one length-prefixed message on the pipe: what is written is written whole, what is read is read
     # exactly (a reader that takes more than is missing swallows the items behind a large one)
     from .c13 import r13_2, r13_3
